@@ -4,4 +4,213 @@ From PAV Require Import Base.NumOps Gen.Gen_geometry Model.C02 Model.C02x.
 Import ListNotations.
 Local Open Scope R_scope.
 
-Lemma placeholder : True. Proof. exact I. Qed.
+(* NumOps projections at ROps, and the derived constants *)
+Ltac rops := cbn [T add sub mul div opp ofZ leb ltb eqb floorZ sqrtT ROps fst snd] in *.
+Ltac rsimp := unfold two, half, one, zero, sq in *; rops.
+
+(* ------------------------------------------------------------------ truncation *)
+Lemma trunc_unique (p : R) (i : Z) : (0 <= i)%Z -> IZR i <= p < IZR i + 1 -> @trunc ROps p = i.
+Proof.
+  intros Hi [H1 H2]. apply IZR_le in Hi. rewrite trunc_R_nonneg by lra. apply Rfloor_unique; lra.
+Qed.
+Lemma trunc_IZR (k : Z) : @trunc ROps (IZR k) = k.
+Proof.
+  destruct (Z_lt_le_dec k 0) as [Hn|Hp].
+  - apply IZR_lt in Hn. rewrite trunc_R_neg by lra. rewrite <- opp_IZR, Rfloor_IZR. lia.
+  - apply trunc_unique; [lia|lra].
+Qed.
+
+Lemma div_bounds a s lo hi : 0 < s -> lo * s <= a < hi * s -> lo <= a / s < hi.
+Proof.
+  intros Hs [H1 H2]. assert (E : a = a / s * s) by (field; lra).
+  split.
+  - apply Rmult_le_reg_r with s; [lra|]. lra.
+  - apply Rmult_lt_reg_r with s; [lra|]. lra.
+Qed.
+Lemma div_bounds' a s lo hi : 0 < s -> lo * s < a <= hi * s -> lo < a / s <= hi.
+Proof.
+  intros Hs [H1 H2]. assert (E : a = a / s * s) by (field; lra).
+  split.
+  - apply Rmult_lt_reg_r with s; [lra|]. lra.
+  - apply Rmult_le_reg_r with s; [lra|]. lra.
+Qed.
+
+(* ------------------------------------------------------------------ scalar conversions (generated definitions) *)
+Lemma central_scaled_2d_eq H W sy sx oy ox :
+  @central_scaled_coordinate_2d_from ROps (H, W) (sy, sx) (oy, ox) =
+  (IZR (H - 1) / 2 + oy / sy, IZR (W - 1) / 2 - ox / sx).
+Proof. reflexivity. Qed.
+
+(* centre formula, continuous form: pixel position (pi, pj) |-> scaled coordinate *)
+Lemma scaled2_is_centre H W sy sx oy ox pi pj : sy <> 0 -> sx <> 0 ->
+  @scaled_coordinates_2d_from ROps (pi, pj) (H, W) (sy, sx) (oy, ox) = (@cy_spec ROps H sy oy pi, @cx_spec ROps W sx ox pj).
+Proof.
+  intros Hy Hx. unfold scaled_coordinates_2d_from, central_scaled_coordinate_2d_from, central_pixel_coordinates_2d_from, cy_spec, cx_spec.
+  rsimp. f_equal; field; assumption.
+Qed.
+
+Lemma pix2_inside H W sy sx oy ox y x i j :
+  0 < sy -> 0 < sx -> (0 <= i)%Z -> (0 <= j)%Z ->
+  @cy_spec ROps H sy oy (IZR i) - sy / 2 < y <= @cy_spec ROps H sy oy (IZR i) + sy / 2 ->
+  @cx_spec ROps W sx ox (IZR j) - sx / 2 <= x < @cx_spec ROps W sx ox (IZR j) + sx / 2 ->
+  @pixel_coordinates_2d_from ROps (y, x) (H, W) (sy, sx) (oy, ox) = (i, j).
+Proof.
+  intros Hsy Hsx Hi Hj Hy Hx.
+  unfold pixel_coordinates_2d_from, central_pixel_coordinates_2d_from, cy_spec, cx_spec in *. rsimp.
+  set (cy := IZR (H - 1) / 2) in *. set (cx := IZR (W - 1) / 2) in *.
+  f_equal; apply trunc_unique; try assumption.
+  - assert (B : IZR i - cy - 1 / 2 <= (- y + oy) / sy < IZR i - cy + 1 / 2) by (apply div_bounds; [assumption | nra]).
+    lra.
+  - assert (B : IZR j - cx - 1 / 2 <= (x - ox) / sx < IZR j - cx + 1 / 2) by (apply div_bounds; [assumption | nra]).
+    lra.
+Qed.
+
+(* index -> centre -> index *)
+Lemma pix2_of_centre H W sy sx oy ox i j : 0 < sy -> 0 < sx -> (0 <= i)%Z -> (0 <= j)%Z ->
+  @pixel_coordinates_2d_from ROps (@scaled_coordinates_2d_from ROps (IZR i, IZR j) (H, W) (sy, sx) (oy, ox)) (H, W) (sy, sx) (oy, ox) = (i, j).
+Proof.
+  intros Hsy Hsx Hi Hj. rewrite scaled2_is_centre by lra. apply pix2_inside; try assumption; lra.
+Qed.
+(* centre -> index -> centre *)
+Lemma centre_of_pix2_of_centre H W sy sx oy ox i j : 0 < sy -> 0 < sx -> (0 <= i)%Z -> (0 <= j)%Z ->
+  let c := @centre_spec ROps (H, W) (sy, sx) (oy, ox) (i, j) in
+  let p := @pixel_coordinates_2d_from ROps c (H, W) (sy, sx) (oy, ox) in
+  @scaled_coordinates_2d_from ROps (IZR (fst p), IZR (snd p)) (H, W) (sy, sx) (oy, ox) = c.
+Proof.
+  intros Hsy Hsx Hi Hj c p.
+  assert (E : p = (i, j)).
+  { unfold p, c, centre_spec. rops. apply pix2_inside; try assumption; lra. }
+  rewrite E. cbn [fst snd]. rewrite scaled2_is_centre by lra. reflexivity.
+Qed.
+
+(* ---- 1D *)
+Lemma scaled1_is_centre n s o p : s <> 0 ->
+  @scaled_coordinates_1d_from ROps p n s o = @cx_spec ROps n s o p.
+Proof.
+  intros Hs. unfold scaled_coordinates_1d_from, central_scaled_coordinate_1d_from, central_pixel_coordinates_1d_from, cx_spec.
+  rsimp. field; assumption.
+Qed.
+Lemma pix1_inside n s o x j : 0 < s -> (0 <= j)%Z ->
+  @cx_spec ROps n s o (IZR j) - s / 2 <= x < @cx_spec ROps n s o (IZR j) + s / 2 ->
+  @pixel_coordinates_1d_from ROps x n s o = j.
+Proof.
+  intros Hs Hj Hx. unfold pixel_coordinates_1d_from, central_pixel_coordinates_1d_from, cx_spec in *. rsimp.
+  set (c := IZR (n - 1) / 2) in *. apply trunc_unique; try assumption.
+  assert (B : IZR j - c - 1 / 2 <= (x - o) / s < IZR j - c + 1 / 2) by (apply div_bounds; [assumption | nra]).
+  lra.
+Qed.
+Lemma pix1_of_centre n s o j : 0 < s -> (0 <= j)%Z ->
+  @pixel_coordinates_1d_from ROps (@scaled_coordinates_1d_from ROps (IZR j) n s o) n s o = j.
+Proof. intros Hs Hj. rewrite scaled1_is_centre by lra. apply pix1_inside; try assumption; lra. Qed.
+
+(* ------------------------------------------------------------------ slim-grid loops (generated definitions) *)
+(* row-wise: each routine is a map, so a statement about one row is a statement about every row *)
+Lemma map_as_flat_map {A B} (f : A -> B) l : map f l = flat_map (fun c => map f [c]) l.
+Proof.
+  induction l as [|a l IH]; [reflexivity|].
+  change (f a :: map f l = map f [a] ++ flat_map (fun c => map f [c]) l). rewrite <- IH. reflexivity.
+Qed.
+Lemma pixels_rowwise g sh s o :
+  @grid_pixels_2d_slim_from ROps g sh s o = flat_map (fun c => @grid_pixels_2d_slim_from ROps [c] sh s o) g.
+Proof. unfold grid_pixels_2d_slim_from. cbv zeta. apply map_as_flat_map. Qed.
+Lemma centres_rowwise g sh s o :
+  @grid_pixel_centres_2d_slim_from ROps g sh s o = flat_map (fun c => @grid_pixel_centres_2d_slim_from ROps [c] sh s o) g.
+Proof. unfold grid_pixel_centres_2d_slim_from. cbv zeta. apply map_as_flat_map. Qed.
+Lemma indexes_rowwise g sh s o :
+  @grid_pixel_indexes_2d_slim_from ROps g sh s o = flat_map (fun c => @grid_pixel_indexes_2d_slim_from ROps [c] sh s o) g.
+Proof.
+  unfold grid_pixel_indexes_2d_slim_from, grid_pixel_centres_2d_slim_from. cbv zeta.
+  rewrite map_map. cbn [map]. apply map_as_flat_map.
+Qed.
+Lemma scaled_rowwise g sh s o :
+  @grid_scaled_2d_slim_from ROps g sh s o = flat_map (fun c => @grid_scaled_2d_slim_from ROps [c] sh s o) g.
+Proof. unfold grid_scaled_2d_slim_from. cbv zeta. apply map_as_flat_map. Qed.
+
+(* the array version of the index computation performs the division before adding the origin term; over R it is the scalar one *)
+Lemma centres_are_pix2 g H W sy sx oy ox : sy <> 0 -> sx <> 0 ->
+  @grid_pixel_centres_2d_slim_from ROps g (H, W) (sy, sx) (oy, ox) =
+  map (fun c => let p := @pixel_coordinates_2d_from ROps c (H, W) (sy, sx) (oy, ox) in (IZR (fst p), IZR (snd p))) g.
+Proof.
+  intros Hy Hx. unfold grid_pixel_centres_2d_slim_from. apply map_ext. intros [y x].
+  unfold pixel_coordinates_2d_from, central_scaled_coordinate_2d_from, central_pixel_coordinates_2d_from. rsimp.
+  f_equal; f_equal; f_equal; field; assumption.
+Qed.
+Lemma indexes_are_pix2 g H W sy sx oy ox : sy <> 0 -> sx <> 0 ->
+  @grid_pixel_indexes_2d_slim_from ROps g (H, W) (sy, sx) (oy, ox) =
+  map (fun c => let p := @pixel_coordinates_2d_from ROps c (H, W) (sy, sx) (oy, ox) in IZR (fst p * W + snd p)) g.
+Proof.
+  intros Hy Hx. unfold grid_pixel_indexes_2d_slim_from. cbv zeta. rewrite centres_are_pix2 by assumption.
+  rewrite map_map. apply map_ext. intros c. rsimp. cbv zeta. rops.
+  rewrite <- mult_IZR, <- plus_IZR, trunc_IZR. reflexivity.
+Qed.
+
+(* ------------------------------------------------------------------ pixel-centre grids of a mask *)
+Lemma gather1_as_map_filter {A} (b : Z -> bool) (f : Z -> A) l :
+  flat_map (fun x => if b x then [] else [f x]) l = map f (filter (fun x => negb (b x)) l).
+Proof. induction l as [|a l IH]; [reflexivity|]. cbn [flat_map filter]. destruct (b a); cbn [negb map app]; now rewrite IH. Qed.
+Lemma gather2_as_map_filter {A} (b : Z -> Z -> bool) (f : Z -> Z -> A) ly lx :
+  flat_map (fun y => flat_map (fun x => if b y x then [] else [f y x]) lx) ly =
+  map (fun p => f (fst p) (snd p)) (filter (fun p => negb (b (fst p) (snd p))) (flat_map (fun i => map (fun j => (i, j)) lx) ly)).
+Proof.
+  induction ly as [|y ly IH]; [reflexivity|]. cbn [flat_map]. rewrite filter_app, map_app, <- IH. f_equal.
+  rewrite gather1_as_map_filter. clear IH. induction lx as [|x lx IH]; [reflexivity|].
+  cbn [map filter fst snd]. destruct (b y x); cbn [negb map fst snd]; now rewrite IH.
+Qed.
+
+Lemma grid_mask_centres m sy sx oy ox : sy <> 0 -> sx <> 0 ->
+  @grid_2d_slim_via_mask_from ROps m (sy, sx) (oy, ox) = map (@centre_spec ROps (rows m, cols m) (sy, sx) (oy, ox)) (unmasked m).
+Proof.
+  intros Hy Hx. unfold grid_2d_slim_via_mask_from. cbv zeta. rewrite gather2_as_map_filter.
+  unfold unmasked, coords, mshape, rows, cols, zrange, seqZ, getm, mget2. cbn [fst snd].
+  apply map_ext. intros [i j].
+  unfold centre_spec, cy_spec, cx_spec, central_scaled_coordinate_2d_from, central_pixel_coordinates_2d_from. rsimp.
+  f_equal; field; assumption.
+Qed.
+Lemma grid1_mask_centres m s o : s <> 0 ->
+  @grid_1d_slim_via_mask_from ROps m s o = map (@centre1_spec ROps (Z.of_nat (length m)) s o) (unmasked1 m).
+Proof.
+  intros Hs. unfold grid_1d_slim_via_mask_from. cbv zeta. rewrite gather1_as_map_filter.
+  unfold unmasked1, zrange, seqZ, mget1. apply map_ext. intros j.
+  unfold centre1_spec, cx_spec, central_scaled_coordinate_1d_from, central_pixel_coordinates_1d_from. rsimp. field; assumption.
+Qed.
+
+(* ------------------------------------------------------------------ continuous pixel coordinates and their inverse *)
+Lemma map_id_ext {A} (f : A -> A) l : (forall a, f a = a) -> map f l = l.
+Proof. intros E. induction l as [|a l IH]; cbn; [reflexivity | now rewrite E, IH]. Qed.
+Lemma scaled_of_pixels g H W sy sx oy ox : sy <> 0 -> sx <> 0 ->
+  @grid_scaled_2d_slim_from ROps (@grid_pixels_2d_slim_from ROps g (H, W) (sy, sx) (oy, ox)) (H, W) (sy, sx) (oy, ox) = g.
+Proof.
+  intros Hy Hx. unfold grid_scaled_2d_slim_from, grid_pixels_2d_slim_from. cbv zeta. rewrite map_map.
+  apply map_id_ext. intros [y x]. rsimp. f_equal; field; assumption.
+Qed.
+Lemma pixels_of_scaled g H W sy sx oy ox : sy <> 0 -> sx <> 0 ->
+  @grid_pixels_2d_slim_from ROps (@grid_scaled_2d_slim_from ROps g (H, W) (sy, sx) (oy, ox)) (H, W) (sy, sx) (oy, ox) = g.
+Proof.
+  intros Hy Hx. unfold grid_scaled_2d_slim_from, grid_pixels_2d_slim_from. cbv zeta. rewrite map_map.
+  apply map_id_ext. intros [y x]. rsimp. f_equal; field; assumption.
+Qed.
+Lemma pixels_are_spec g H W sy sx oy ox : sy <> 0 -> sx <> 0 ->
+  @grid_pixels_2d_slim_from ROps g (H, W) (sy, sx) (oy, ox) = map (@pixels_spec ROps (H, W) (sy, sx) (oy, ox)) g.
+Proof.
+  intros Hy Hx. unfold grid_pixels_2d_slim_from. cbv zeta. apply map_ext. intros [y x].
+  unfold pixels_spec, hi_spec, lo_spec, central_scaled_coordinate_2d_from, central_pixel_coordinates_2d_from. rsimp.
+  rewrite !minus_IZR. f_equal; field; assumption.
+Qed.
+Lemma scaled_are_spec g H W sy sx oy ox : sy <> 0 -> sx <> 0 ->
+  @grid_scaled_2d_slim_from ROps g (H, W) (sy, sx) (oy, ox) = map (@scaled_spec ROps (H, W) (sy, sx) (oy, ox)) g.
+Proof.
+  intros Hy Hx. unfold grid_scaled_2d_slim_from. cbv zeta. apply map_ext. intros [y x].
+  unfold scaled_spec, hi_spec, lo_spec, central_scaled_coordinate_2d_from, central_pixel_coordinates_2d_from. rsimp.
+  rewrite !minus_IZR. f_equal; field; assumption.
+Qed.
+(* the integer pixel index is the floor of the continuous pixel coordinate wherever that is non-negative *)
+Lemma centres_are_floor_of_pixels g sh s o :
+  Forall (fun p => 0 <= fst p /\ 0 <= snd p) (@grid_pixels_2d_slim_from ROps g sh s o) ->
+  @grid_pixel_centres_2d_slim_from ROps g sh s o =
+  map (fun p => (IZR (Rfloor (fst p)), IZR (Rfloor (snd p)))) (@grid_pixels_2d_slim_from ROps g sh s o).
+Proof.
+  unfold grid_pixel_centres_2d_slim_from, grid_pixels_2d_slim_from. cbv zeta. rewrite map_map.
+  induction g as [|c g IH]; intros Hf; [reflexivity|]. cbn [map] in *. inversion Hf as [|? ? [H1 H2] Hf']; subst.
+  rewrite IH by assumption. cbn [fst snd] in H1, H2. rops.
+  rewrite !trunc_R_nonneg by assumption. reflexivity.
+Qed.
